@@ -236,7 +236,7 @@ def _subst_text(s, names):
 
 
 # ------------------------------------------------------------------------------------------ inlining
-def inline_body(crate, body, index, depth=0):
+def inline_body(crate, body, index, depth=0, force=None):
     """returns (Body with eligible helper calls expanded, {paths of inlined helpers}) or (None, set())"""
     d = None
     used = set()
@@ -257,14 +257,16 @@ def inline_body(crate, body, index, depth=0):
         if fn is None or fn.get("krate") != crate.name:
             continue
         callee = index.get(fn.get("path"))
-        if callee is None or callee.path == body.path or not eligible(crate, callee, index):
+        if callee is None or callee.path == body.path:
+            continue
+        if not (force(callee) if force is not None else eligible(crate, callee, index)):
             continue
         if depth >= MAX_DEPTH:
             continue
         if len(t["args"]) != callee.arg_count:
             continue
         # nested helpers first
-        inner, inner_used = inline_body(crate, callee, index, depth + 1)
+        inner, inner_used = inline_body(crate, callee, index, depth + 1, force)
         src = inner if inner is not None else callee
         if d is None:
             d = copy.deepcopy(body.d)
